@@ -346,7 +346,7 @@ fn body_corpus(ch: &Ch) -> Run {
 
 pub fn prop(tier: Tier) -> Prop {
   let (n, slots, modes) = match tier {
-    Tier::Quick => (3, 3, vec![Mode::Deviations(1), Mode::Deviations(2)]),
+    Tier::Quick => (3, 3, vec![Mode::Deviations(1), Mode::Deviations(2), Mode::Deviations(3)]),
     Tier::Thorough => (4, 3, vec![Mode::Deviations(2), Mode::Deviations(3), Mode::Deviations(4)]),
   };
   Prop {
